@@ -251,6 +251,13 @@ fn check_entry(h: &rbpf::disassembler::HLInsn, want: &Insn, imm64: i64, idx: usi
         return Ok(());
     }
     if k == Kind::Endian && !matches!(want.imm, 16 | 32 | 64) {
+        // a byte swap of a width the assembler cannot express: how it is spelled is not
+        // prescribed, but the text must not denote a valid byte swap (a different instruction)
+        if let Some((mn, _)) = asmref::parse_desc(&h.desc) {
+            if asmref::mnemonic_map().contains_key(&mn) {
+                return Err(("desc-mismatch".into(), format!("entry {idx}: text {:?} for a byte swap with immediate {} denotes the valid instruction {mn:?}", h.desc, want.imm)));
+            }
+        }
         return Ok(());
     }
     let bad = |why: &str| Err(("desc-mismatch".to_string(), format!("entry {idx}: text {:?} for {want:?} (imm {imm64:#x}): {why}", h.desc)));
